@@ -13,8 +13,10 @@ def gen_vars(rng, world, nv, allow_empty=True, kinds=("list", "gen")):
     for nm in names:
         size = rng.choice([0, 1, 2, 2, 3, 3, 4]) if allow_empty else rng.choice([1, 2, 2, 3, 3, 4])
         dom = [rng.randrange(n) for _ in range(size)]
-        # identical object twice in a domain is legal but makes "each once" ambiguous: keep distinct
-        dom = list(dict.fromkeys(dom))
+        # the identical object twice in a domain is one value (a domain is a set of candidate values): mostly kept
+        # distinct, sometimes left in to see that every pass over the domain agrees on that
+        if rng.random() < 0.85:
+            dom = list(dict.fromkeys(dom))
         out.append({"name": nm, "type": rng.choice(["P", "P", "P", "Q"]), "dom": dom, "kind": rng.choice(list(kinds))})
     return out
 
@@ -266,13 +268,19 @@ def gen_scalar_vars(rng, falsy=True):
 
     def atom():
         a, b = rng.choice(names), rng.choice(names)
-        if rng.random() < 0.5:
+        r = rng.random()
+        if falsy and r < 0.12:
+            # a bare variable (its value is its truth value) or a Python bool in condition position
+            return ["truth", ["var", rng.choice([n_ for n_ in names if n_ in ("n", "k")])]]
+        if falsy and r < 0.18:
+            return ["truth", ["lit", rng.random() < 0.5]]
+        if r < 0.55:
             return ["cmp", rng.choice(CMP), term(a), ["lit", rng.randint(lo, lo + 3)]]
         return ["cmp", rng.choice(CMP), term(a), term(b)]
 
     c = atom()
     for _ in range(rng.randint(0, 2)):
-        c = ["and", c, atom()]
+        c = ["and", c, atom()] if rng.random() < 0.7 else ["and", atom(), c]
     if rng.random() < 0.2:
         c = ["or", c, ["cmp", rng.choice(CMP), ["var", "n"], ["lit", rng.randint(lo, lo + 3)]]]
     sel = rng.sample(names, rng.randint(1, len(names)))
